@@ -1980,4 +1980,464 @@ theorem list_eq_sum_buckets {r : Ring} {log : Log} (hq : QInv r log) (gte lt : I
       intro w _; simp [hin']
     rw [hnil]; simp [hin', total]
 
+/-! ### completeness of `List`: every key with a retained accepted flow in range has a row -/
+
+theorem unionKeys_mem (a b : List Nat) (k : Nat) : k ∈ unionKeys a b ↔ k ∈ a ∨ k ∈ b := by
+  unfold unionKeys
+  induction a generalizing b with
+  | nil => simp
+  | cons x xs ih =>
+    simp only [List.foldl_cons, ih, insertKey_mem, List.mem_cons]
+    constructor
+    · rintro (h | h | h)
+      · exact Or.inl (Or.inr h)
+      · exact Or.inl (Or.inl h)
+      · exact Or.inr h
+    · rintro ((h | h) | h)
+      · exact Or.inr (Or.inl h)
+      · exact Or.inl h
+      · exact Or.inr (Or.inr h)
+
+def bucketSel (gte lt : Int) (b : Bucket) : Bool := (gte == 0 || decide (b.start ≥ gte)) && (lt == 0 || decide (b.start ≤ lt))
+
+theorem flowSet_fold_mem (gte lt : Int) (bs : List Bucket) (acc : List Nat) (k : Nat)
+    (h : k ∈ acc ∨ ∃ b ∈ bs, bucketSel gte lt b = true ∧ k ∈ b.keys) :
+    k ∈ bs.foldl (fun acc b =>
+      if (gte == 0 || decide (b.start ≥ gte)) && (lt == 0 || decide (b.start ≤ lt)) then unionKeys b.keys acc else acc) acc := by
+  induction bs generalizing acc with
+  | nil =>
+    rcases h with h | ⟨b, hb, _⟩
+    · exact h
+    · cases hb
+  | cons x xs ih =>
+    simp only [List.foldl_cons]
+    apply ih
+    rcases h with h | ⟨b, hb, hsel, hk⟩
+    · left; split
+      · exact (unionKeys_mem _ _ _).2 (Or.inr h)
+      · exact h
+    · simp only [List.mem_cons] at hb
+      rcases hb with rfl | hb
+      · left
+        have : ((gte == 0 || decide (b.start ≥ gte)) && (lt == 0 || decide (b.start ≤ lt))) = true := hsel
+        simp only [this, if_true]
+        exact (unionKeys_mem _ _ _).2 (Or.inl hk)
+      · right; exact ⟨b, hb, hsel, hk⟩
+
+theorem flowSet_mem (r : Ring) (gte lt : Int) (i k : Nat) (hi : i < r.n)
+    (hsel : bucketSel gte lt (r.bucket i) = true) (hk : k ∈ (r.bucket i).keys) : k ∈ r.flowSet gte lt := by
+  unfold Ring.flowSet
+  apply flowSet_fold_mem
+  right
+  have hl : i < r.buckets.length := hi
+  refine ⟨r.buckets[i], List.getElem_mem hl, ?_, ?_⟩
+  · have : r.bucket i = r.buckets[i] := by simp [Ring.bucket, List.getD_eq_getElem?_getD, List.getElem?_eq_getElem hl]
+    rw [← this]; exact hsel
+  · have : r.bucket i = r.buckets[i] := by simp [Ring.bucket, List.getD_eq_getElem?_getD, List.getElem?_eq_getElem hl]
+    rw [← this]; exact hk
+
+theorem list_has_row (r : Ring) (gte lt : Int) (k : Nat) (hf : k ∈ r.flowSet gte lt) (hw : within (r.wins k) gte lt = true) :
+    ∃ x ∈ r.list gte lt, x.1 = k := by
+  unfold Ring.list
+  refine ⟨(k, aggregate (r.wins k) gte lt), ?_, rfl⟩
+  rw [List.mem_filterMap]
+  refine ⟨k, hf, ?_⟩
+  have : within ((lookupDia r.dia k).getD []) gte lt = true := hw
+  simp [this, Ring.wins, winsOf]
+
+theorem addWin_keeps (st sp c : Int) (ws : List Win) (w : Win) (h : w ∈ ws) : ∃ w' ∈ addWin st sp c ws, w'.start = w.start := by
+  induction ws with
+  | nil => cases h
+  | cons x xs ih =>
+    simp only [addWin]
+    simp only [List.mem_cons] at h
+    split
+    · split
+      · rcases h with rfl | h
+        · exact ⟨{ w with cnt := w.cnt + c }, List.mem_cons_self .., rfl⟩
+        · exact ⟨w, List.mem_cons_of_mem _ h, rfl⟩
+      · rcases h with rfl | h
+        · exact ⟨w, List.mem_cons_of_mem _ (List.mem_cons_self ..), rfl⟩
+        · exact ⟨w, List.mem_cons_of_mem _ (List.mem_cons_of_mem _ h), rfl⟩
+    · rcases h with rfl | h
+      · exact ⟨w, List.mem_cons_self .., rfl⟩
+      · obtain ⟨w', h1, h2⟩ := ih h
+        exact ⟨w', List.mem_cons_of_mem _ h1, h2⟩
+
+theorem addWin_new (st sp c : Int) (ws : List Win) : ∃ w' ∈ addWin st sp c ws, w'.start = st := by
+  induction ws with
+  | nil => exact ⟨_, List.mem_singleton.2 rfl, rfl⟩
+  | cons x xs ih =>
+    simp only [addWin]
+    split
+    · split
+      · rename_i hx; exact ⟨_, List.mem_cons_self .., hx⟩
+      · exact ⟨_, List.mem_cons_self .., rfl⟩
+    · obtain ⟨w', h1, h2⟩ := ih
+      exact ⟨w', List.mem_cons_of_mem _ h1, h2⟩
+
+theorem dropExpired_keeps (lim : Int) (ws : List Win) (w : Win) (h : w ∈ ws) (hs : w.stop > lim) : w ∈ dropExpired lim ws := by
+  induction ws with
+  | nil => cases h
+  | cons x xs ih =>
+    simp only [dropExpired]
+    split
+    · exact h
+    · rename_i hx
+      simp only [List.mem_cons] at h
+      rcases h with rfl | h
+      · exact absurd hs hx
+      · exact ih h
+
+/-- every logged (accepted) flow whose bucket is still in the ring is listed in that bucket's key set and has
+a window for that bucket -/
+def LogHome (r : Ring) (log : Log) : Prop :=
+  ∀ e ∈ log, ∀ i, i < r.n → (r.bucket i).contains e.2.1 = true →
+    e.1 ∈ (r.bucket i).keys ∧ ∃ w ∈ r.wins e.1, w.start = (r.bucket i).start
+
+structure CInv (r : Ring) (log : Log) : Prop where
+  q : QInv r log
+  lh : LogHome r log
+
+
+theorem addFlow_cinv {r : Ring} {log : Log} (hc : CInv r log) (key : Nat) (t cnt : Int) :
+    CInv (r.addFlow key t cnt).1 (if (r.addFlow key t cnt).2 then (key, t, cnt) :: log else log) := by
+  have hq := addFlow_qinv hc.q key t cnt
+  refine ⟨hq, ?_⟩
+  cases hf : r.findBucket t with
+  | none =>
+    have : r.addFlow key t cnt = (r, false) := by simp [Ring.addFlow, hf]
+    rw [this]; exact hc.lh
+  | some i0 =>
+    obtain ⟨hacc, hdia, hlay⟩ := addFlow_accept r key t cnt i0 hf
+    obtain ⟨ht1, ht2⟩ := findBucket_sound' r t i0 hf
+    obtain ⟨i', hi', hf', hcn⟩ := contig_findBucket hc.q.g.contig t ht2 ht1
+    have hii : i0 = i' := by rw [hf] at hf'; exact Option.some.inj hf'
+    subst hii
+    have hwk : (r.addFlow key t cnt).1.wins key = addWin (r.bucket i0).start (r.bucket i0).stop cnt (r.wins key) := by
+      unfold Ring.wins; rw [hdia]; exact setDia_self _ _ _ hc.q.g.ks
+    have hwo : ∀ k, k ≠ key → (r.addFlow key t cnt).1.wins k = r.wins k := by
+      intro k hk; unfold Ring.wins; rw [hdia]; exact setDia_ne _ _ _ _ hk
+    have hcont : ∀ i, ((r.addFlow key t cnt).1.bucket i).contains = (r.bucket i).contains := by
+      intro i; funext x; simp only [Bucket.contains, (hlay.bk i).1, (hlay.bk i).2]
+    rw [hacc]; simp only [if_true]
+    intro e he i hi hce
+    rw [hlay.len] at hi
+    rw [hcont] at hce
+    rw [(hlay.bk i).1]
+    simp only [List.mem_cons] at he
+    rcases he with rfl | he
+    · -- the new flow: its bucket is i0
+      have : i = i0 := contig_unique hc.q.g.contig t i i0 hi hi' hce hcn
+      subst this
+      refine ⟨addFlow_key_self r key t cnt i hf hi, ?_⟩
+      show ∃ w ∈ (r.addFlow key t cnt).1.wins key, _
+      rw [hwk]; exact addWin_new _ _ _ _
+    · obtain ⟨h1, w, hw, hs⟩ := hc.lh e he i hi hce
+      refine ⟨addFlow_keys r key t cnt i e.1 h1, ?_⟩
+      by_cases hk : e.1 = key
+      · rw [hk, hwk]; rw [hk] at hw
+        obtain ⟨w', h2, h3⟩ := addWin_keeps (r.bucket i0).start (r.bucket i0).stop cnt _ w hw
+        exact ⟨w', h2, h3.trans hs⟩
+      · rw [hwo _ hk]; exact ⟨w, hw, hs⟩
+
+theorem rollover_cinv {r : Ring} {log : Log} (hc : CInv r log) (sink : Bool) : CInv (r.rollover sink).1 log := by
+  have hq := rollover_qinv hc.q sink
+  refine ⟨hq, ?_⟩
+  have hg := hc.q.g
+  have hspec := expireFold_spec r.advance.boh (r.bucket (r.idxAdd r.head 1)).keys r.dia hg.ks
+  have hw' : ∀ k, (r.rollover sink).1.wins k =
+      if k ∈ (r.bucket (r.idxAdd r.head 1)).keys then dropExpired r.advance.boh (r.wins k) else r.wins k := by
+    intro k; unfold Ring.wins; rw [rollover_dia]; exact hspec.2 k
+  have hsame := rollover_same r sink
+  have hca := advance_contig hg.contig
+  intro e he i hi hce
+  rw [rollover_n] at hi
+  have hb : (r.rollover sink).1.bucket i = (r.rollover sink).1.bucket i := rfl
+  simp only [Bucket.contains, (hsame.bk i).1, (hsame.bk i).2.1] at hce
+  rw [(hsame.bk i).1, (hsame.bk i).2.2]
+  by_cases hih : r.idxAdd r.head 1 = i
+  · exfalso
+    subst hih
+    rw [advance_new hg.contig] at hce
+    simp only [Bool.and_eq_true, decide_eq_true_eq] at hce
+    have := hg.llt e he
+    omega
+  · rw [advance_old r i hih] at hce ⊢
+    have hce' : (r.bucket i).contains e.2.1 = true := by simpa [Bucket.contains] using hce
+    obtain ⟨h1, w, hw, hs⟩ := hc.lh e he i hi hce'
+    refine ⟨h1, w, ?_, hs⟩
+    rw [hw']
+    split
+    · apply dropExpired_keeps _ _ _ hw
+      have h2 := hg.wI e.1 w hw
+      have h3 := (contig_stop_le hca i (by rw [advance_n]; exact hi)).2.2
+      rw [advance_old r i hih] at h3
+      have hI := hg.contig.ipos
+      omega
+    · exact hw
+
+theorem emit_cinv {r : Ring} {log : Log} (hc : CInv r log) : CInv r.emit.1 log := by
+  refine ⟨emit_qinv hc.q, ?_⟩
+  have hs := (emit_same r).1
+  have hd := (emit_same r).2
+  intro e he i hi hce
+  rw [show r.emit.1.n = r.n from hs.len] at hi
+  simp only [Bucket.contains, (hs.bk i).1, (hs.bk i).2.1] at hce
+  have hce' : (r.bucket i).contains e.2.1 = true := by simpa [Bucket.contains] using hce
+  obtain ⟨h1, w, hw, hs'⟩ := hc.lh e he i hi hce'
+  rw [(hs.bk i).1, (hs.bk i).2.2]
+  refine ⟨h1, w, ?_, hs'⟩
+  unfold Ring.wins; rw [hd]; exact hw
+
+theorem gstep_cinv {s : Ring × Log} (h : CInv s.1 s.2) (op : Op) : CInv (gstep s op).1 (gstep s op).2 := by
+  cases op with
+  | add k t c => exact addFlow_cinv h k t c
+  | roll sink => exact rollover_cinv h sink
+  | emit => exact emit_cinv h
+
+theorem grun_cinv {s : Ring × Log} (h : CInv s.1 s.2) (ops : List Op) : CInv (grun s ops).1 (grun s ops).2 := by
+  induction ops generalizing s with
+  | nil => exact h
+  | cons op ops ih => exact ih (gstep_cinv h op)
+
+theorem newRing_cinv (n : Nat) (interval now : Int) (pushAfter agg : Nat) (hn : 0 < n) (hi : 0 < interval) :
+    CInv (newRing n interval now pushAfter agg) [] :=
+  ⟨newRing_qinv n interval now pushAfter agg hn hi, fun e he => by cases he⟩
+
+/-- `list_complete`: a logged flow whose bucket is in the ring and wholly inside the range gives a row for its key -/
+theorem list_complete_of_cinv {r : Ring} {log : Log} (hc : CInv r log) (gte lt : Int) (e : Nat × Int × Int) (he : e ∈ log)
+    (i : Nat) (hi : i < r.n) (hce : (r.bucket i).contains e.2.1 = true) (hin : bucketIn gte lt (r.bucket i) = true) :
+    ∃ x ∈ r.list gte lt, x.1 = e.1 := by
+  obtain ⟨hk, w, hw, hs⟩ := hc.lh e he i hi hce
+  have hb := contig_stop_le hc.q.g.contig i hi
+  have hI := hc.q.g.contig.ipos
+  simp only [bucketIn, Bool.and_eq_true, Bool.or_eq_true, beq_iff_eq, decide_eq_true_eq] at hin
+  apply list_has_row r gte lt e.1
+  · apply flowSet_mem r gte lt i e.1 hi _ hk
+    simp only [bucketSel, Bool.and_eq_true, Bool.or_eq_true, beq_iff_eq, decide_eq_true_eq]
+    refine ⟨hin.1, ?_⟩
+    rcases hin.2 with h | h
+    · exact Or.inl h
+    · right; omega
+  · unfold within
+    rw [List.any_eq_true]
+    refine ⟨w, hw, ?_⟩
+    simp only [Bool.and_eq_true, Bool.or_eq_true, beq_iff_eq, decide_eq_true_eq]
+    rw [hs]
+    refine ⟨hin.1, ?_⟩
+    rcases hin.2 with h | h
+    · exact Or.inl h
+    · right; omega
+
+
+/-! ### history level: no bucket is handed to the sink twice (ghost list of emitted bucket start times) -/
+
+/-- start times of the buckets covered by the collections `cs`, read in ring `r` -/
+def sentStarts (r : Ring) (cs : List Coll) : List Int := cs.flatMap (fun c => c.idxs.map (fun i => (r.bucket i).start))
+
+/-- one step of the aggregator together with the ghost list of the start times of all buckets handed to the sink so far -/
+def estep (s : Ring × List Int) : Op → Ring × List Int
+  | .add k t c => ((s.1.addFlow k t c).1, s.2)
+  | .roll false => (s.1.rolled, s.2)
+  | .roll true => (s.1.rolled.emit.1, s.2 ++ sentStarts s.1.rolled s.1.rolled.emit.2)
+  | .emit => (s.1.emit.1, s.2 ++ sentStarts s.1 s.1.emit.2)
+
+def erun (s : Ring × List Int) (ops : List Op) : Ring × List Int := ops.foldl estep s
+
+theorem estep_ring (s : Ring × List Int) (l : Log) (op : Op) : (estep s op).1 = (gstep (s.1, l) op).1 := by
+  cases op with
+  | add k t c => rfl
+  | roll sink => cases sink with
+    | false => rfl
+    | true => exact (rollover_true_eq s.1).1.symm
+  | emit => rfl
+
+/-- every emitted start time lies before the end of history, and a ring bucket with an emitted start time is pushed -/
+structure EInv (r : Ring) (em : List Int) : Prop where
+  nodup : em.Nodup
+  lt : ∀ s ∈ em, s < r.eoh
+  pushed : ∀ s ∈ em, ∀ i, i < r.n → (r.bucket i).start = s → (r.bucket i).pushed = true
+
+theorem contig_start_inj {r : Ring} (hc : Contig r) (i j : Nat) (hi : i < r.n) (hj : j < r.n)
+    (h : (r.bucket i).start = (r.bucket j).start) : i = j := by
+  have hbi := contig_stop_le hc i hi
+  have hbj := contig_stop_le hc j hj
+  have hI := hc.ipos
+  apply contig_unique hc (r.bucket i).start i j hi hj
+  · simp only [Bucket.contains, Bool.and_eq_true, decide_eq_true_eq]; omega
+  · simp only [Bucket.contains, Bool.and_eq_true, decide_eq_true_eq]; omega
+
+theorem nodup_map_inj_on {α β : Type} (f : α → β) (l : List α) (hn : l.Nodup)
+    (hinj : ∀ a ∈ l, ∀ b ∈ l, f a = f b → a = b) : (l.map f).Nodup := by
+  induction l with
+  | nil => simp
+  | cons x xs ih =>
+    rw [List.nodup_cons] at hn
+    rw [List.map_cons, List.nodup_cons]
+    refine ⟨?_, ih hn.2 (fun a ha b hb => hinj a (List.mem_cons_of_mem _ ha) b (List.mem_cons_of_mem _ hb))⟩
+    intro hm
+    rw [List.mem_map] at hm
+    obtain ⟨y, hy, he⟩ := hm
+    have := hinj y (List.mem_cons_of_mem _ hy) x (List.mem_cons_self ..) he
+    subst this; exact hn.1 hy
+
+theorem winIdx_nodup (r : Ring) (hh : r.head < r.n) (D m : Nat) (hm : m ≤ D + 1) (hD : D < r.n) : (winIdx r D m).Nodup := by
+  unfold winIdx
+  apply nodup_map_inj_on _ _ List.nodup_range
+  intro a ha b hb he
+  rw [List.mem_range] at ha hb
+  have := idxSub_inj r r.head (D - a) (D - b) hh (by omega) (by omega) he
+  omega
+
+/-- the emission from a ring satisfying the invariants: the indexes of all sent buckets are distinct -/
+theorem sent_idxs_nodup (r : Ring) (hh : r.head < r.n) : (r.emit.2.flatMap (·.idxs)).Nodup := by
+  have hd := built_disjoint r hh
+  have hsub : r.emit.2.Sublist r.built.reverse := by
+    unfold Ring.emit; simp only []; exact List.filter_sublist
+  have hpw : r.built.reverse.Pairwise (fun a b => ∀ i, i ∈ a.idxs → i ∉ b.idxs) := by
+    rw [List.pairwise_reverse]
+    have := hd.1
+    rw [List.pairwise_map] at this
+    exact this.imp (fun h i hb ha => h i ha hb)
+  have hnd : ∀ c ∈ r.built.reverse, c.idxs.Nodup := by
+    intro c hc
+    obtain ⟨D', _, h2, hagg, h3, _, _⟩ := built_unpushed r hh c (List.mem_reverse.1 hc)
+    rw [h3]; exact winIdx_nodup r hh D' r.agg (by omega) h2
+  have key : ∀ l : List Coll, l.Pairwise (fun a b => ∀ i, i ∈ a.idxs → i ∉ b.idxs) → (∀ c ∈ l, c.idxs.Nodup) →
+      (l.flatMap (·.idxs)).Nodup := by
+    intro l
+    induction l with
+    | nil => intro _ _; simp
+    | cons c cs ih =>
+      intro hp hn
+      rw [List.pairwise_cons] at hp
+      rw [List.flatMap_cons, List.nodup_append]
+      refine ⟨hn c (List.mem_cons_self ..), ih hp.2 (fun c' hc' => hn c' (List.mem_cons_of_mem _ hc')), ?_⟩
+      intro a ha b hb hab
+      subst hab
+      rw [List.mem_flatMap] at hb
+      obtain ⟨c', hc', hb'⟩ := hb
+      exact hp.1 c' hc' a ha hb'
+  exact key _ (hpw.sublist hsub) (fun c hc => hnd c (hsub.subset hc))
+
+
+theorem sentStarts_eq (r : Ring) (cs : List Coll) :
+    sentStarts r cs = (cs.flatMap (·.idxs)).map (fun i => (r.bucket i).start) := by
+  unfold sentStarts; rw [List.map_flatMap]
+
+theorem emit_einv {r : Ring} {em : List Int} (hc : Contig r) (hh : HInv r) (he : EInv r em) :
+    EInv r.emit.1 (em ++ sentStarts r r.emit.2) := by
+  have hs := (emit_same r).1
+  have hlen : r.emit.1.n = r.n := hs.len
+  have heoh : r.emit.1.eoh = r.eoh := hs.layout.eoh
+  -- facts about every sent index
+  have hidx : ∀ i ∈ r.emit.2.flatMap (·.idxs), i < r.n ∧ (r.bucket i).pushed = false ∧ (r.emit.1.bucket i).pushed = true := by
+    intro i hi
+    rw [List.mem_flatMap] at hi
+    obtain ⟨c, hcm, hic⟩ := hi
+    have hb := emit_sent_built r c hcm
+    have h1 := (built_disjoint r hh.hlt).2 c hb i hic
+    exact ⟨h1.2, built_all_unpushed r hh.hlt hh.pinv c hb i hic, emit_sent_marked r c hcm i hic h1.2⟩
+  rw [sentStarts_eq]
+  refine ⟨?_, ?_, ?_⟩
+  · rw [List.nodup_append]
+    refine ⟨he.nodup, ?_, ?_⟩
+    · apply nodup_map_inj_on _ _ (sent_idxs_nodup r hh.hlt)
+      intro a ha b hb hab
+      exact contig_start_inj hc a b (hidx a ha).1 (hidx b hb).1 hab
+    · intro s hs' t ht hst
+      subst hst
+      rw [List.mem_map] at ht
+      obtain ⟨i, hi, rfl⟩ := ht
+      have := he.pushed _ hs' i (hidx i hi).1 rfl
+      rw [(hidx i hi).2.1] at this; cases this
+  · intro s hs'
+    rw [heoh]
+    rw [List.mem_append] at hs'
+    rcases hs' with h | h
+    · exact he.lt s h
+    · rw [List.mem_map] at h
+      obtain ⟨i, hi, rfl⟩ := h
+      have hb := contig_stop_le hc i (hidx i hi).1
+      have := hc.ipos
+      omega
+  · intro s hs' j hj hst
+    rw [hlen] at hj
+    rw [(hs.bk j).1] at hst
+    rw [List.mem_append] at hs'
+    rcases hs' with h | h
+    · have := he.pushed s h j hj hst
+      rw [emit_pushed, this]; rfl
+    · rw [List.mem_map] at h
+      obtain ⟨i, hi, rfl⟩ := h
+      have : j = i := contig_start_inj hc j i hj (hidx i hi).1 hst
+      subst this
+      exact (hidx j hi).2.2
+
+theorem rolled_einv {r : Ring} {em : List Int} (hc : Contig r) (he : EInv r em) : EInv r.rolled em := by
+  have hsame : SameTimes r.rolled r.advance := rollover_same r false
+  have hfl := rolled_flags r
+  have heoh : r.rolled.eoh = r.eoh + r.interval := by rw [hsame.layout.eoh]; exact advance_eoh hc
+  have hI := hc.ipos
+  refine ⟨he.nodup, ?_, ?_⟩
+  · intro s hs; rw [heoh]; have := he.lt s hs; omega
+  · intro s hs j hj hst
+    rw [show r.rolled.n = r.n from (by rw [hfl.len, advance_n])] at hj
+    rw [(hsame.bk j).1] at hst
+    rw [hfl.pushed j]
+    by_cases hjh : r.idxAdd r.head 1 = j
+    · exfalso
+      subst hjh
+      rw [advance_new hc] at hst
+      have := he.lt s hs
+      simp only [] at hst
+      omega
+    · rw [advance_old r j hjh] at hst ⊢
+      exact he.pushed s hs j hj hst
+
+theorem addFlow_einv {r : Ring} {em : List Int} (he : EInv r em) (key : Nat) (t cnt : Int) :
+    EInv (r.addFlow key t cnt).1 em := by
+  have hf := addFlow_flags r key t cnt
+  cases hfb : r.findBucket t with
+  | none =>
+    have : r.addFlow key t cnt = (r, false) := by simp [Ring.addFlow, hfb]
+    rw [this]; exact he
+  | some i0 =>
+    obtain ⟨_, _, hlay⟩ := addFlow_accept r key t cnt i0 hfb
+    refine ⟨he.nodup, fun s hs => by rw [hlay.eoh]; exact he.lt s hs, ?_⟩
+    intro s hs j hj hst
+    rw [hlay.len] at hj
+    rw [(hlay.bk j).1] at hst
+    rw [hf.pushed j]
+    exact he.pushed s hs j hj hst
+
+/-- the invariants carried along a history (with some ghost log of accepted flows) -/
+def EState (r : Ring) (em : List Int) : Prop := (∃ log, GInv r log) ∧ HInv r ∧ EInv r em
+
+theorem estep_estate {s : Ring × List Int} (h : EState s.1 s.2) (op : Op) : EState (estep s op).1 (estep s op).2 := by
+  obtain ⟨⟨log, hg⟩, hh, he⟩ := h
+  have hg' : GInv (gstep (s.1, log) op).1 (gstep (s.1, log) op).2 := gstep_ginv (s := (s.1, log)) hg op
+  have hh' : HInv (gstep (s.1, log) op).1 := gstep_hinv (s := (s.1, log)) hh op
+  refine ⟨⟨_, by rw [estep_ring s log op]; exact hg'⟩, by rw [estep_ring s log op]; exact hh', ?_⟩
+  cases op with
+  | add k t c => exact addFlow_einv he k t c
+  | roll sink =>
+    cases sink with
+    | false => exact rolled_einv hg.contig he
+    | true =>
+      have hgr : GInv s.1.rolled log := rollover_ginv hg false
+      exact emit_einv hgr.contig (rolled_hinv hh) (rolled_einv hg.contig he)
+  | emit => exact emit_einv hg.contig hh he
+
+theorem erun_estate {s : Ring × List Int} (h : EState s.1 s.2) (ops : List Op) : EState (erun s ops).1 (erun s ops).2 := by
+  induction ops generalizing s with
+  | nil => exact h
+  | cons op ops ih => exact ih (estep_estate h op)
+
+theorem newRing_estate (n : Nat) (interval now : Int) (pushAfter agg : Nat) (hn : 0 < n) (hi : 0 < interval) :
+    EState (newRing n interval now pushAfter agg) [] :=
+  ⟨⟨[], newRing_ginv n interval now pushAfter agg hn hi⟩, newRing_hinv n interval now pushAfter agg hn hi,
+   { nodup := List.nodup_nil, lt := fun s hs => (by cases hs), pushed := fun s hs => (by cases hs) }⟩
+
 end CalicoVerif.C32
